@@ -11,7 +11,7 @@ import numpy as np
 
 from . import seam
 from .common import HarnessError, close
-from .grammar import MaskVal, Missing, Node, RefCtx, ref_enumerate, ref_run
+from .grammar import MaskVal, Missing, Node, RefCtx, component_of, ref_enumerate, ref_run
 from .harness import (
     Prog,
     args_key,
@@ -26,6 +26,25 @@ from .harness import (
 )
 
 
+def concrete_args(args):
+    """python bools / ints stay python objects (concrete); floats and arrays become jnp arrays"""
+
+    def conv(a):
+        if a is None:
+            return None
+        if isinstance(a, tuple):
+            return tuple(conv(x) for x in a)
+        if isinstance(a, (bool, np.bool_)):
+            return bool(a)
+        if isinstance(a, (int, np.integer)):
+            return int(a)
+        if isinstance(a, float):
+            return jnp.asarray(a, dtype=jnp.float32)
+        return jnp.asarray(a)
+
+    return tuple(conv(a) for a in args)
+
+
 def asg_key(asg):
     return repr(sorted(((repr(p), (round(v, 5) if isinstance(v, float) else v)) for p, v in asg.items())))
 
@@ -33,7 +52,7 @@ def asg_key(asg):
 class SimTree:
     """Complete probability tree of simulate for (prog, args)."""
 
-    def __init__(self, prog: Prog, args, key, max_paths=4096, op="simulate"):
+    def __init__(self, prog: Prog, args, key, max_paths=4096, op="simulate", static_args=False):
         self.prog, self.args, self.key = prog, args, key
         node = prog.node
         self.universe = prog.universe([args])
@@ -63,9 +82,15 @@ class SimTree:
             raise ValueError(op)
 
         # structure key: the universe depends on args only through array shapes / python structure
-        jf = prog.jitted((op, tuple(paths_all), jax.tree_util.tree_structure(args)), f)
-        jargs = to_jax_args(args)
-        self.fn = lambda: jf(key, jargs)
+        if static_args:
+            # python-level arguments (bool flags, int indices) stay concrete: closed over as constants
+            cargs = concrete_args(args)
+            jf = prog.jitted((op, "static", tuple(paths_all), args_key(args)), lambda key: f(key, cargs))
+            self.fn = lambda: jf(key)
+        else:
+            jf = prog.jitted((op, tuple(paths_all), jax.tree_util.tree_structure(args)), f)
+            jargs = to_jax_args(args)
+            self.fn = lambda: jf(key, jargs)
         with seam.seam(prog.n_cont):
             if not seam.check_replay(self.fn):
                 raise HarnessError(f"non-deterministic replay for {node.name} {op}")
@@ -82,17 +107,17 @@ def check_trace_against_ref(ctx, node: Node, args, asg, score, retval, where: st
     try:
         ret, R = ref_run(node, args, asg)
     except Missing as m:
-        ctx.fail(node.kind, op, where, "choices:missing_address", dict(program=node.name, args=args_key(args), missing=repr(m.path), asg=asg_key(asg)))
+        ctx.fail(component_of(node), op, where, "choices:missing_address", dict(program=node.name, args=args_key(args), missing=repr(m.path), asg=asg_key(asg)))
         return None
     visited = set(R.visited())
     extra = set(asg) - visited
     if extra:
-        ctx.fail(node.kind, op, where, "choices:extra_address", dict(program=node.name, args=args_key(args), extra=sorted(map(repr, extra)), asg=asg_key(asg)))
+        ctx.fail(component_of(node), op, where, "choices:extra_address", dict(program=node.name, args=args_key(args), extra=sorted(map(repr, extra)), asg=asg_key(asg)))
         return None
     if not close(score, R.score()):
-        ctx.fail(node.kind, op, where, "score", dict(program=node.name, args=args_key(args), asg=asg_key(asg), impl=float(score), ref=R.score()))
+        ctx.fail(component_of(node), op, where, "score", dict(program=node.name, args=args_key(args), asg=asg_key(asg), impl=float(score), ref=R.score()))
     if not cmp_ret(retval, ret):
-        ctx.fail(node.kind, op, where, "retval", dict(program=node.name, args=args_key(args), asg=asg_key(asg), impl=repr(retval), ref=repr(ret)))
+        ctx.fail(component_of(node), op, where, "retval", dict(program=node.name, args=args_key(args), asg=asg_key(asg), impl=repr(retval), ref=repr(ret)))
     return R
 
 
@@ -117,7 +142,7 @@ def distribution_check(ctx, node: Node, args, tree: SimTree, op="simulate"):
     if bad:
         bad.sort()
         ctx.fail(
-            node.kind,
+            component_of(node),
             op,
             "finite_discrete",
             "distribution",
